@@ -680,7 +680,7 @@ pub fn subchecks(tier: Tier) -> Vec<SubCheck> {
         generated(
             "operation_sequences",
             "sequences of <= 30 (quick) / 100 (thorough) safe operations over a pool holding one object of each type plus a comparison target and a position array: generate from bytes, parse (grammar-derived and mutated texts), constructors with possibly bad arguments, normalise in place, every conversion into the pool's previously used destinations, dual compress / expand, target and position-array initialisation; after every step every object passes is_valid() and the re-implemented invariants, full_eq(x, x), {:?}; non-trivial = a write into a destination whose previous content was longer; distinct by sequence",
-            tier.pick(100_000, 1_500_000),
+            tier.pick(160_000, 2_000_000),
             move || seq_strategy(wt_seed(), max_ops),
             eval_seq,
         ),
